@@ -12,4 +12,4 @@ CONSTANTS
 INIT Init
 NEXT Next
 CHECK_DEADLOCK FALSE
-INVARIANTS ResolveRelToFile EvalOnce SameValue CycleIsDiagnostic VerdictIffAsserts ExitIffFail EachAssertOnce OneArtifact SecondOutIsError AllOrNothing BatchEqualsSolo Emit
+INVARIANTS ResolveRelToFile EvalOnce EvalOrder SameValue CycleIsDiagnostic VerdictIffAsserts ExitIffFail EachAssertOnce OneArtifact SecondOutIsError AllOrNothing BatchEqualsSolo Emit
